@@ -1,9 +1,10 @@
 import Nsq.Model.RegistryProto
-import Nsq.Proofs.RegistryRefine
+import Nsq.Proofs.RegistryWF
 /-! Lemmas about the byte-level connection model `Nsq.Model.RegistryProto`. -/
 namespace Nsq.Proofs.RegistryProto
 open Nsq.Model.Registry Nsq.Model.Registry.AMap Nsq.Model.RegistryProto
 open Nsq.Proofs.RegistryMap Nsq.Proofs.RegistryDB Nsq.Proofs.RegistryRefine Nsq.Spec.RegistrySpec
+open Nsq.Proofs.RegistryWF
 
 theorem splitSp_ne_nil (l : List UInt8) : splitSp l ≠ [] := by
   cases l with
@@ -52,9 +53,9 @@ theorem exec_fixed_no_panic (decode : List UInt8 → Option Info) (r : Registry)
         · simp
         · split <;> simp
 
-theorem ioLoop_fixed_no_panic (decode : List UInt8 → Option Info) (p : Nat) (now : Int) (fuel : Nat)
-    (r : Registry) (inp : List UInt8) (acc : List (List UInt8)) :
-    (ioLoop fixedV decode p now fuel r inp acc).fin ≠ .panic := by
+theorem ioLoop_fixed_no_panic (decode : List UInt8 → Option Info) (wf : Nat → Bool) (p : Nat) (now : Int)
+    (fuel : Nat) (r : Registry) (inp : List UInt8) (acc : List (List UInt8)) :
+    (ioLoop fixedV decode wf p now fuel r inp acc).fin ≠ .panic := by
   induction fuel generalizing r inp acc with
   | zero => simp [ioLoop]
   | succ fuel ih =>
@@ -67,16 +68,22 @@ theorem ioLoop_fixed_no_panic (decode : List UInt8 → Option Info) (p : Nat) (n
         exact absurd hx (exec_fixed_no_panic decode r p now _ lr.2 (splitSp_ne_nil _) w)
       · split
         · simp
-        · exact ih _ _ _
+        · split
+          · simp
+          · exact ih _ _ _
 
-theorem handle_fixed_no_panic (decode : List UInt8 → Option Info) (r : Registry) (p : Nat) (now : Int)
-    (inp : List UInt8) : (handle fixedV decode r p now inp).fin ≠ .panic := by
-  unfold handle
+theorem handleW_fixed_no_panic (decode : List UInt8 → Option Info) (wf : Nat → Bool) (r : Registry) (p : Nat)
+    (now : Int) (inp : List UInt8) : (handleW fixedV decode wf r p now inp).fin ≠ .panic := by
+  unfold handleW
   split
   · split
-    · exact ioLoop_fixed_no_panic decode p now _ r _ []
+    · exact ioLoop_fixed_no_panic decode wf p now _ r _ []
     · simp
   · simp
+
+theorem handle_fixed_no_panic (decode : List UInt8 → Option Info) (r : Registry) (p : Nat) (now : Int)
+    (inp : List UInt8) : (handle fixedV decode r p now inp).fin ≠ .panic :=
+  handleW_fixed_no_panic decode _ r p now inp
 
 
 /-! ### Isolation: connection `p` never changes an entry of another connection -/
@@ -187,9 +194,9 @@ theorem frame_exec (v : Variant) (decode : List UInt8 → Option Info) (r r' : R
           · simp only [ExecRes.reply.injEq] at h; rw [← h.1]; exact frame_unregister r p args
           · simp only [ExecRes.reply.injEq] at h; rw [← h.1]; exact frame_disconnect r p
 
-theorem frame_ioLoop (v : Variant) (decode : List UInt8 → Option Info) (p : Nat) (now : Int) (fuel : Nat)
-    (r : Registry) (inp : List UInt8) (acc : List (List UInt8)) :
-    Frame p r (ioLoop v decode p now fuel r inp acc).reg := by
+theorem frame_ioLoop (v : Variant) (decode : List UInt8 → Option Info) (wf : Nat → Bool) (p : Nat) (now : Int)
+    (fuel : Nat) (r : Registry) (inp : List UInt8) (acc : List (List UInt8)) :
+    Frame p r (ioLoop v decode wf p now fuel r inp acc).reg := by
   induction fuel generalizing r inp acc with
   | zero => simp only [ioLoop]; exact frame_disconnect r p
   | succ fuel ih =>
@@ -203,16 +210,130 @@ theorem frame_ioLoop (v : Variant) (decode : List UInt8 → Option Info) (p : Na
         have hf := frame_exec v decode r r' p now _ lr.2 rest out hx
         split
         · exact hf.trans (frame_disconnect r' p)
-        · exact hf.trans (ih r' rest _)
+        · split
+          · exact hf.trans (frame_disconnect r' p)
+          · exact hf.trans (ih r' rest _)
 
-theorem frame_handle (v : Variant) (decode : List UInt8 → Option Info) (r : Registry) (p : Nat) (now : Int)
-    (inp : List UInt8) : Frame p r (handle v decode r p now inp).reg := by
-  unfold handle
+theorem frame_handleW (v : Variant) (decode : List UInt8 → Option Info) (wf : Nat → Bool) (r : Registry) (p : Nat)
+    (now : Int) (inp : List UInt8) : Frame p r (handleW v decode wf r p now inp).reg := by
+  unfold handleW
   split
   · split
-    · exact frame_ioLoop v decode p now _ r _ []
+    · exact frame_ioLoop v decode wf p now _ r _ []
     · exact Frame.refl p r
   · exact Frame.refl p r
+
+theorem frame_handle (v : Variant) (decode : List UInt8 → Option Info) (r : Registry) (p : Nat) (now : Int)
+    (inp : List UInt8) : Frame p r (handle v decode r p now inp).reg :=
+  frame_handleW v decode _ r p now inp
+
+/-! ### Every way out of the loop runs the clean-up -/
+
+/-- nothing of connection `p` is left: not identified, no producer entry under any key -/
+def Gone (p : Nat) (r : Registry) : Prop :=
+  identifiedB r p = false ∧ ∀ k, getP r.db k p = none
+
+theorem disconnect_gone (r : Registry) (p : Nat) (h : WF r) : Gone p (disconnect r p) := by
+  cases hi : identifiedB r p with
+  | true =>
+    refine ⟨by rw [identifiedB_disconnect r p p hi]; simp, ?_⟩
+    intro k
+    have : (disconnect r p).db = removeProducerAll r.db (lookupRegistrations r.db p) p := by
+      unfold disconnect; simp [hi]
+    rw [this, getP_disconnectDB]; simp
+  | false =>
+    have : disconnect r p = r := by unfold disconnect; simp [hi]
+    rw [this]
+    refine ⟨hi, ?_⟩
+    intro k
+    cases hg : getP r.db k p with
+    | none => rfl
+    | some tb =>
+      have := h.peerKnown k p (by simp [hg])
+      rw [hi] at this; exact absurd this (by simp)
+
+theorem WF_execIdentify (v : Variant) (decode : List UInt8 → Option Info) (r r' : Registry) (p : Nat)
+    (now : Int) (rest rest' : List UInt8) (out : TcpOut)
+    (h : execIdentify v decode r p now rest = .reply r' out rest') (hw : WF r) : WF r' := by
+  unfold execIdentify at h
+  split at h
+  · simp only [ExecRes.reply.injEq] at h; rw [← h.1]; exact WF_disconnect r p hw
+  · split at h
+    · split at h
+      · simp only [ExecRes.reply.injEq] at h; rw [← h.1]; exact hw
+      · split at h
+        · simp only [ExecRes.reply.injEq] at h; rw [← h.1]; exact hw
+        · split at h
+          · simp at h
+          · split at h
+            · simp only [ExecRes.reply.injEq] at h; rw [← h.1]; exact hw
+            · split at h
+              · simp only [ExecRes.reply.injEq] at h; rw [← h.1]; exact hw
+              · simp only [ExecRes.reply.injEq] at h; rw [← h.1]; exact WF_identify r p _ now hw
+    · simp only [ExecRes.reply.injEq] at h; rw [← h.1]; exact hw
+
+theorem WF_exec (v : Variant) (decode : List UInt8 → Option Info) (r r' : Registry) (p : Nat) (now : Int)
+    (params : List Name) (rest rest' : List UInt8) (out : TcpOut)
+    (h : exec v decode r p now params rest = .reply r' out rest') (hw : WF r) : WF r' := by
+  unfold exec at h
+  cases params with
+  | nil => simp at h
+  | cons cmd args =>
+    simp only at h
+    split at h
+    · simp only [ExecRes.reply.injEq] at h; rw [← h.1]; exact WF_ping r p now hw
+    · split at h
+      · exact WF_execIdentify v decode r r' p now rest rest' out h hw
+      · split at h
+        · simp only [ExecRes.reply.injEq] at h; rw [← h.1]; exact WF_register r p args hw
+        · split at h
+          · simp only [ExecRes.reply.injEq] at h; rw [← h.1]; exact WF_unregister r p args hw
+          · simp only [ExecRes.reply.injEq] at h; rw [← h.1]; exact WF_disconnect r p hw
+
+/-- whatever ends the loop (except the death of the process): the peer is gone and the state is
+well-formed -/
+theorem ioLoop_exit_gone (v : Variant) (decode : List UInt8 → Option Info) (wf : Nat → Bool) (p : Nat) (now : Int)
+    (fuel : Nat) (r : Registry) (inp : List UInt8) (acc : List (List UInt8)) (hw : WF r)
+    (hnp : (ioLoop v decode wf p now fuel r inp acc).fin ≠ .panic) :
+    Gone p (ioLoop v decode wf p now fuel r inp acc).reg ∧ WF (ioLoop v decode wf p now fuel r inp acc).reg := by
+  induction fuel generalizing r inp acc with
+  | zero => simp only [ioLoop]; exact ⟨disconnect_gone r p hw, WF_disconnect r p hw⟩
+  | succ fuel ih =>
+    unfold ioLoop at hnp ⊢
+    split
+    · exact ⟨disconnect_gone r p hw, WF_disconnect r p hw⟩
+    · rename_i lr hrl
+      simp only [hrl] at hnp
+      split
+      · rename_i w hx; simp [hx] at hnp
+      · rename_i r' out rest hx
+        have hw' := WF_exec v decode r r' p now _ lr.2 rest out hx hw
+        simp only [hx] at hnp
+        split
+        · exact ⟨disconnect_gone r' p hw', WF_disconnect r' p hw'⟩
+        · rename_i hne
+          simp only [hne, if_false] at hnp
+          split
+          · exact ⟨disconnect_gone r' p hw', WF_disconnect r' p hw'⟩
+          · rename_i hwf
+            simp only [hwf, if_false] at hnp
+            exact ih r' rest _ hw' hnp
+
+theorem handleW_exit_gone (v : Variant) (decode : List UInt8 → Option Info) (wf : Nat → Bool) (r : Registry)
+    (p : Nat) (now : Int) (inp : List UInt8) (hw : WF r)
+    (hfin : (handleW v decode wf r p now inp).fin = .eof ∨ (handleW v decode wf r p now inp).fin = .fatal ∨
+            (handleW v decode wf r p now inp).fin = .writeFail) :
+    Gone p (handleW v decode wf r p now inp).reg ∧ WF (handleW v decode wf r p now inp).reg := by
+  unfold handleW at hfin ⊢
+  split at hfin
+  · rename_i a b c d body
+    by_cases hm : [a, b, c, d] = magicV1
+    · simp only [hm, if_true] at hfin ⊢
+      apply ioLoop_exit_gone v decode wf p now _ r body [] hw
+      intro hp
+      rcases hfin with hf | hf | hf <;> rw [hp] at hf <;> simp at hf
+    · simp [hm] at hfin
+  · simp at hfin
 
 /-! ### Errors -/
 
@@ -315,12 +436,13 @@ an error) exactly one documented error as the last reply -/
 def ReplyShape (res : Res) (acc : List (List UInt8)) : Prop :=
   ∃ oks, (∀ b ∈ oks, okReply b) ∧
     ((res.fin = .eof ∧ res.replies = acc ++ oks) ∨
-     (res.fin = .fatal ∧ ∃ e, errReply e ∧ res.replies = acc ++ oks ++ [e]) ∨
-     (res.fin = .panic))
+     (res.fin = .fatal ∧ ∃ e, errReply e ∧ (res.replies = acc ++ oks ++ [e] ∨ res.replies = acc ++ oks)) ∨
+     (res.fin = .panic) ∨
+     (res.fin = .writeFail ∧ res.replies = acc ++ oks))
 
-theorem ioLoop_shape (v : Variant) (decode : List UInt8 → Option Info) (p : Nat) (now : Int) (fuel : Nat)
-    (r : Registry) (inp : List UInt8) (acc : List (List UInt8)) :
-    ReplyShape (ioLoop v decode p now fuel r inp acc) acc := by
+theorem ioLoop_shape (v : Variant) (decode : List UInt8 → Option Info) (wf : Nat → Bool) (p : Nat) (now : Int)
+    (fuel : Nat) (r : Registry) (inp : List UInt8) (acc : List (List UInt8)) :
+    ReplyShape (ioLoop v decode wf p now fuel r inp acc) acc := by
   induction fuel generalizing r inp acc with
   | zero => exact ⟨[], by simp, Or.inl ⟨rfl, by simp [ioLoop]⟩⟩
   | succ fuel ih =>
@@ -329,12 +451,12 @@ theorem ioLoop_shape (v : Variant) (decode : List UInt8 → Option Info) (p : Na
     · exact ⟨[], by simp, Or.inl ⟨rfl, by simp⟩⟩
     · rename_i lr _
       split
-      · exact ⟨[], by simp, Or.inr (Or.inr rfl)⟩
+      · exact ⟨[], by simp, Or.inr (Or.inr (Or.inl rfl))⟩
       · rename_i r' out rest hx
         have hgood := exec_out v decode r r' p now _ lr.2 rest out hx
         split
         · rename_i herr
-          refine ⟨[], by simp, Or.inr (Or.inl ⟨rfl, replyBytes out, ?_, by simp⟩)⟩
+          refine ⟨[], by simp, Or.inr (Or.inl ⟨rfl, replyBytes out, ?_, by split <;> simp⟩)⟩
           cases hgood with
           | inl h => rw [h] at herr; simp [TcpOut.isErr] at herr
           | inr h =>
@@ -342,6 +464,8 @@ theorem ioLoop_shape (v : Variant) (decode : List UInt8 → Option Info) (p : Na
             | inl h => rw [h] at herr; simp [TcpOut.isErr] at herr
             | inr h => obtain ⟨c, m, ho, hc⟩ := h; exact ⟨c, m, by rw [ho], hc⟩
         · rename_i hnerr
+          split
+          · exact ⟨[], by simp, Or.inr (Or.inr (Or.inr ⟨rfl, by simp⟩))⟩
           have hok : okReply (replyBytes out) := by
             cases hgood with
             | inl h => rw [h]; exact Or.inl rfl
@@ -361,8 +485,14 @@ theorem ioLoop_shape (v : Variant) (decode : List UInt8 → Option Info) (p : Na
               cases h with
               | inl h =>
                 obtain ⟨hf, e, he, hr⟩ := h
-                exact Or.inr (Or.inl ⟨hf, e, he, by rw [hr]; simp⟩)
-              | inr h => exact Or.inr (Or.inr h)
+                refine Or.inr (Or.inl ⟨hf, e, he, ?_⟩)
+                cases hr with
+                | inl hr => exact Or.inl (by rw [hr]; simp)
+                | inr hr => exact Or.inr (by rw [hr]; simp)
+              | inr h =>
+                cases h with
+                | inl h => exact Or.inr (Or.inr (Or.inl h))
+                | inr h => exact Or.inr (Or.inr (Or.inr ⟨h.1, by rw [h.2]; simp⟩))
 
 /-! ### HTTP -/
 
